@@ -49,9 +49,10 @@ TraceInit ==
     /\ req = 1 /\ url = q.url /\ status = q.status
     /\ scope = "recv" /\ viaPass = FALSE /\ restarts = 0 /\ branch = "none" /\ didLookupHit = FALSE
     /\ attempt = "none"
-    /\ cache = [u \in Urls |-> "none"] /\ count = 0 /\ jailed = FALSE /\ jail = q.jail /\ ttl0 = FALSE /\ uncache = FALSE /\ young = FALSE
+    /\ cache = [u \in Urls |-> "none"] /\ now = 0 /\ expiry = [u \in Urls |-> 0]
+    /\ count = 0 /\ jailUntil = 0 /\ jail = q.jail /\ look = q.look /\ ttl0 = FALSE /\ uncache = FALSE /\ young = FALSE
     /\ pc = "run" /\ lastK = <<>> /\ defined = SetOf(q.defined)
-    /\ cur = [NewCur(q.url, q.status, [u \in Urls |-> "none"]) EXCEPT !.jail = q.jail] /\ hist = <<>>
+    /\ cur = [NewCur(q.url, q.status, FALSE) EXCEPT !.jail = q.jail, !.look = q.look] /\ hist = <<>>
 
 \* the current attempt went through vcl_pass (or recv chose pass)
 OnPassPath ==
@@ -91,9 +92,9 @@ ReqEndOK ==
   /\ CASE Rec.outcome = "ok"    -> pc = "done" /\ ReportOK
        [] Rec.outcome = "error" -> pc = "err" \/ (~Rec.exact /\ pc = "run")  \* an unknown program may fail anywhere
        [] OTHER                 -> FALSE                                      \* a crash is never a behaviour
-  /\ Rec.knowAfter => (Rec.storedAfter = (cache[url] = "fresh"))
+  /\ Rec.knowAfter => (Rec.storedAfter = Fresh(url))
   /\ Rec.seen >= 0 => Rec.seen = cur.seen     \* rate counter value the request saw (generated programs)
-  /\ Rec.jailSeen >= 0 => (Rec.jailSeen = 1) = cur.sawJail   \* was the client in the penalty box
+  /\ (Rec.jailSeen >= 0 /\ cur.look) => (Rec.jailSeen = 1) = cur.sawJail   \* was the client in the penalty box
 
 TraceNextReq ==
   /\ ReqEndOK
@@ -101,17 +102,20 @@ TraceNextReq ==
      LET q == Rq(t, rn)
          \* an object may expire between requests of an unknown program's trace (real time passes)
          cs == {cache} \cup (IF ~q.exact /\ cache[q.url] = "fresh" THEN {[cache EXCEPT ![q.url] = "expired"]} ELSE {})
+         t1 == now + q.wait       \* the recorded number of ticks the harness let pass before this request
      IN
      /\ \E c \in cs : /\ cache' = c
-                      /\ q.knowBefore => (q.storedBefore = (c[q.url] = "fresh"))
-                      /\ cur' = [NewCur(q.url, q.status, c) EXCEPT !.jail = q.jail]
-     /\ url' = q.url /\ status' = q.status /\ defined' = SetOf(q.defined) /\ jail' = q.jail
+                      /\ q.knowBefore => (q.storedBefore = IsFresh(c, expiry, t1, q.url))
+                      /\ cur' = [NewCur(q.url, q.status, IsFresh(c, expiry, t1, q.url))
+                                   EXCEPT !.jail = q.jail, !.look = q.look, !.wait = q.wait, !.t = t1]
+     /\ now' = t1
+     /\ url' = q.url /\ status' = q.status /\ defined' = SetOf(q.defined) /\ jail' = q.jail /\ look' = q.look
      /\ r' = rn
   /\ fin' = fin \cup {r} /\ l' = 1 /\ req' = req + 1
   /\ scope' = "recv" /\ viaPass' = FALSE /\ restarts' = 0 /\ branch' = "none" /\ didLookupHit' = FALSE
   /\ attempt' = "none" /\ ttl0' = FALSE /\ uncache' = FALSE /\ young' = FALSE /\ pc' = "run"
   /\ lastK' = <<>> /\ hist' = hist
-  /\ UNCHANGED <<t, count, jailed>>
+  /\ UNCHANGED <<t, count, jailUntil, expiry>>
 
 TraceNext == TraceStep \/ TraceSkip \/ TraceNextReq
 TraceSpec == TraceInit /\ [][TraceNext]_tvars
